@@ -6,7 +6,8 @@
    meaning is property C08's subject).  `nms_loop` is the model of the loops of nms.rs over the `excluded`
    index set (Model/Nms.v); `nms_cands` is the same result with the post-filter indices still attached. *)
 From Coq Require Import List NArith QArith Bool Arith Permutation Sorted.
-From Similari Require Import Model.Nms Proofs.NmsProofs.
+From Similari Require Import Base.Num Model.Nms Proofs.NmsProofs Proofs.NmsScalarProofs.
+From SimilariGen Require Import Scalar ScalarBox ScalarNms.
 Import ListNotations.
 Open Scope Q_scope.
 
@@ -95,16 +96,47 @@ Section C14.
   Proof. exact (nms_idempotent_lemma B rank passes covers). Qed.
 End C14.
 
-(* Non-vacuity: five detections; #1 (score 0.9) is the top; #0 (0.8) is covered by #1 and dropped; #3 (0.7)
-   is not covered by #1 and is kept; #2 fails the score filter (0.2 <= 0.25); #4 (0.6) is covered only by the
-   dropped #0, which does not suppress, and by nothing kept: kept.  Threshold 1/2, compared strictly:
-   #3 has exactly 1/2 of its area under #1. *)
+(* ---- the same, read with the decisions TRANSLATED from src/utils/nms.rs (gen/ScalarNms.v, regenerated every run) ----
+   nms_translated st thr tab = nms at passes := nms_score_filter, rank := nms_rank,
+   covers hi lo := nms_covers_cmp (nms_metric lo.bbox (intersection(hi, lo))) thr; only the intersection areas `tab`
+   are an oracle.  cov_ratio tab hi lo = intersection(hi, lo) / area(lo) (exact); threshold_or_min / score_or_max
+   substitute f32::MIN / f32::MAX for a missing threshold / score.  These statements hold because the translated
+   text means "metric > threshold, metric = intersection / area of the LOWER box" (Proofs/NmsScalarProofs.v): with
+   `>=` or the other box's area in nms.rs that file no longer compiles and this cone breaks. *)
+
+Theorem nms_translated_subset_of_passing : forall st thr tab l d,
+    In d (nms_translated st thr tab l) ->
+    In d l /\ threshold_or_min st < score_or_max d
+    /\ 0 < Universal2DBox_height Qops (d_box d) /\ 0 < Universal2DBox_aspect Qops (d_box d).
+Proof. exact nms_translated_subset_lemma. Qed.
+
+Theorem nms_translated_sorted_by_rank : forall st thr tab l,
+    StronglySorted (fun a b => det_rank b <= det_rank a) (nms_translated st thr tab l).
+Proof. exact nms_translated_sorted_lemma. Qed.
+
+(* no kept box has MORE THAN the threshold fraction of its area covered by a kept box standing before it *)
+Theorem nms_translated_kept_independent : forall st thr tab l,
+    ForallOrdPairs (fun hi lo => ~ thr < cov_ratio tab hi lo) (nms_translated st thr tab l).
+Proof. exact nms_translated_independent_lemma. Qed.
+
+(* every passing box is kept, or more than the threshold fraction of its area is covered by a kept box of no lower rank *)
+Theorem nms_translated_dropped_is_covered : forall st thr tab l d,
+    In d l -> threshold_or_min st < score_or_max d ->
+    0 < Universal2DBox_height Qops (d_box d) -> 0 < Universal2DBox_aspect Qops (d_box d) ->
+    In d (nms_translated st thr tab l)
+    \/ exists a, In a (nms_translated st thr tab l) /\ det_rank d <= det_rank a /\ thr < cov_ratio tab a d.
+Proof. exact nms_translated_dropped_lemma. Qed.
+
+Theorem nms_translated_idempotent : forall st thr tab l,
+    nms_translated st thr tab (nms_translated st thr tab l) = nms_translated st thr tab l.
+Proof. exact nms_translated_idempotent_lemma. Qed.
+
+(* Non-vacuity: five 2x2 detections (area 4); #1 (score 0.9) is the top; #0 (0.8) has 3/4 of its area under #1 and is
+   dropped; #3 (0.7) has exactly 1/2 of its area under #1: not MORE than the threshold 1/2, kept; #2 fails the score
+   filter (0.2 <= 0.25); #4 (0.6) is covered only by the dropped #0, which does not suppress: kept. *)
 Example c14_nonvacuous :
-  let dets := [ {| d_id := 0; d_score := Some (4#5); d_height := 2; d_aspect := 1 |};
-                {| d_id := 1; d_score := Some (9#10); d_height := 2; d_aspect := 1 |};
-                {| d_id := 2; d_score := Some (1#5); d_height := 2; d_aspect := 1 |};
-                {| d_id := 3; d_score := Some (7#10); d_height := 2; d_aspect := 1 |};
-                {| d_id := 4; d_score := Some (3#5); d_height := 2; d_aspect := 1 |} ] in
-  let tab : metric_tab := [ (1%N, [(0%N, 3#4); (3%N, 1#2)]); (0%N, [(1%N, 3#4); (4%N, 9#10)]) ] in
+  let dets := [ mk_det 0 0 0 None 1 2 (Some (4#5)); mk_det 1 0 0 None 1 2 (Some (9#10)); mk_det 2 0 0 None 1 2 (Some (1#5));
+                mk_det 3 0 0 None 1 2 (Some (7#10)); mk_det 4 0 0 None 1 2 (Some (3#5)) ] in
+  let tab : inter_tab := [ (1%N, [(0%N, 3); (3%N, 2)]); (0%N, [(1%N, 3); (4%N, 18#5)]) ] in
   run_case (Some (1#4)) (1#2) tab dets = ([1%N; 3%N; 4%N], [1%N; 3%N; 4%N]).
 Proof. vm_compute. reflexivity. Qed.
